@@ -116,6 +116,7 @@ type Run struct {
 	floors      map[string]int64
 	engines     []string
 	engineN     map[string]int64
+	engineWall  map[string]float64
 	exhaustive  bool
 	level       string
 }
@@ -126,7 +127,7 @@ func New(prop string) *Run {
 		Prop: prop, Tier: "quick", Seed: 1, start: time.Now(),
 		counters: map[string]int64{}, maxes: map[string]int64{},
 		distinct: map[uint64]struct{}{}, samples: map[string][]any{},
-		floors: map[string]int64{}, engineN: map[string]int64{}, level: "exploration",
+		floors: map[string]int64{}, engineN: map[string]int64{}, engineWall: map[string]float64{}, level: "exploration",
 	}
 	if t := os.Getenv("VERIF_TIER"); t == "thorough" {
 		r.Tier = t
@@ -364,6 +365,9 @@ type Opt struct {
 	Env []string
 	// Serial: run the engine's cases one at a time in-process.
 	Serial bool
+	// IgnoreRaces: race-detector reports of the children are counted but are
+	// not verdicts (for properties whose statement has no data-race clause).
+	IgnoreRaces bool
 }
 
 func (r *Run) caseSeed(engine string, idx int) uint64 {
@@ -452,7 +456,11 @@ func (r *Run) Cases(engine string, n int, opt Opt, fn func(c *Case)) {
 		r.absorb(c)
 		return
 	}
+	t0 := time.Now()
 	r.runLocal(engine, n, 0, 1, opt, fn)
+	r.mu.Lock()
+	r.engineWall[engine] = float64(int(time.Since(t0).Seconds()*100)) / 100
+	r.mu.Unlock()
 }
 
 func (r *Run) runLocal(engine string, n, w, W int, opt Opt, fn func(*Case)) {
@@ -613,7 +621,11 @@ func (r *Run) CasesProc(engine string, n int, opt Opt, fn func(c *Case)) {
 	for w := 0; w < procs; w++ {
 		specs[w] = fmt.Sprintf("%s|%d|%d", engine, w, procs)
 	}
+	t0 := time.Now()
 	r.spawn(engine, bin, opt, specs)
+	r.mu.Lock()
+	r.engineWall[engine] = float64(int(time.Since(t0).Seconds()*100)) / 100
+	r.mu.Unlock()
 }
 
 func (r *Run) binPath(kind string) (string, bool) {
@@ -660,13 +672,13 @@ func (r *Run) spawn(engine, bin string, opt Opt, specs []string) {
 			cmd.Stdout, cmd.Stderr = of, of
 			err = cmd.Run()
 			of.Close()
-			r.collectChild(engine, spec, part, prog, outp, racep, err)
+			r.collectChild(engine, spec, part, prog, outp, racep, err, opt.IgnoreRaces)
 		}(i, spec)
 	}
 	wg.Wait()
 }
 
-func (r *Run) collectChild(engine, spec, part, prog, outp, racep string, runErr error) {
+func (r *Run) collectChild(engine, spec, part, prog, outp, racep string, runErr error, ignoreRaces bool) {
 	var p partial
 	havePart := false
 	if b, err := os.ReadFile(part); err == nil {
@@ -717,6 +729,10 @@ func (r *Run) collectChild(engine, spec, part, prog, outp, racep string, runErr 
 		if err != nil {
 			continue
 		}
+		if ignoreRaces {
+			r.Add("race_reports_not_judged", int64(len(raceHdr.FindAllString(string(b), -1))))
+			continue
+		}
 		r.absorbRaceLog(engine, string(b))
 	}
 	if !havePart {
@@ -727,8 +743,15 @@ func (r *Run) collectChild(engine, spec, part, prog, outp, racep string, runErr 
 			idx, _ = strconv.Atoi(strings.TrimSpace(string(pb)))
 		}
 		tail := so
-		if len(tail) > 6000 {
-			tail = tail[:6000]
+		if len(tail) > 9000 {
+			// the runtime's fatal message and goroutine dump are at the end
+			if i := strings.LastIndex(so, "\nfatal error:"); i >= 0 && len(so)-i < 9000 {
+				tail = so[i:]
+			} else if i := strings.LastIndex(so, "\npanic: "); i >= 0 && len(so)-i < 9000 {
+				tail = so[i:]
+			} else {
+				tail = "...\n" + so[len(so)-9000:]
+			}
 		}
 		switch {
 		case InGolib(so) && (strings.Contains(so, "fatal error:") || strings.Contains(so, "panic:") || strings.Contains(so, "checkptr")):
@@ -746,7 +769,16 @@ func (r *Run) collectChild(engine, spec, part, prog, outp, racep string, runErr 
 }
 
 func firstLine(s string) string {
-	for _, l := range strings.Split(s, "\n") {
+	// the last fatal/panic line that is followed by a goroutine dump is the one that killed the process
+	lines := strings.Split(s, "\n")
+	for i := len(lines) - 1; i >= 0; i-- {
+		l := lines[i]
+		if (strings.HasPrefix(l, "fatal error:") || strings.HasPrefix(l, "panic:")) && i+2 < len(lines) &&
+			(strings.HasPrefix(lines[i+1], "goroutine ") || strings.HasPrefix(lines[i+2], "goroutine ") || strings.HasPrefix(lines[i+1], "\tpanic:") || strings.Contains(lines[i+1], "[recovered]")) {
+			return l
+		}
+	}
+	for _, l := range lines {
 		if strings.HasPrefix(l, "fatal error:") || strings.HasPrefix(l, "panic:") {
 			return l
 		}
@@ -1067,6 +1099,7 @@ func (r *Run) writeEvidence(unknown, known int, floorsMissed []string) {
 		cov["exhaustive"] = true
 	}
 	cov["engines"] = r.engineN
+	cov["engine_wall_s"] = r.engineWall
 	obs := map[string]int64{}
 	for k, v := range r.counters {
 		obs[k] = v
